@@ -15,5 +15,7 @@ TiersHaveProperties == TiersOK(bag, Tiers(bag, Cand), Cand)
 TiersAgree == Tiers(bag, Cand) = TiersByReach(bag, Cand, Cand)
 TopIsSmith == Tiers(bag, Cand)[1] = Smith(bag, Cand)
 CondorcetIffSingleton == HasCondorcetWinner(bag, Cand) <=> Cardinality(Tiers(bag, Cand)[1]) = 1
+(* cycles exist exactly when some dominating tier has more than one member *)
+CyclesIffBigTier == HasCycle(bag, Cand) <=> \E i \in 1..Len(Tiers(bag, Cand)) : Cardinality(Tiers(bag, Cand)[i]) > 1
 MarginAntisymmetric == \A a, b \in Cand : Margin(bag, a, b) = RNeg(Margin(bag, b, a))
 =============================================================================
